@@ -146,3 +146,23 @@ def encode_hands_out_cached(n: int) -> bitarray:
 
 def encode_copies_cached(n: int) -> bitarray:
     return cached_bits(n).copy()     # pure twin: a private copy
+
+
+class LazyLength:
+    ONE_SHOT = (n for n in range(3))          # class-level generator: consumed by its first user
+
+    def __init__(self, data: bytes):
+        self.data = data
+        self._length = None
+
+    def __len__(self) -> int:
+        if self._length is None:               # memo on the object: stale once self.data changes
+            self._length = len(self.data) + 2
+        return self._length
+
+    def as_bytes(self) -> bytes:
+        return len(self).to_bytes(2, "big") + self.data
+
+
+def encode_salted(name: str) -> int:
+    return hash(name) & 0xFFFF                 # differs between interpreter processes
